@@ -41,7 +41,7 @@ def minimize(case, sig):
         return c14_sched.minimize(case, sig)
     return case
 
-TEXTS = ["a", "b", "text é", "€𝄞", "x y", "\tz", "0", "line, with; punctuation", "A" * 200, ""]
+TEXTS = ["a", "b", "text é", "€𝄞", "x y", "\tz", "0", "line, with; punctuation", "A" * 200, "ends in blank ", "tab\t", " ", "nbsp\xa0", "ff\x0c", ""]
 SEQ_OPS = ["store", "store", "store", "read", "read", "len", "contig", "list", "reopen", "flush", "store", "read", "list", "store"]
 
 
@@ -49,7 +49,7 @@ def dec(c):
     op = SEQ_OPS[c % len(SEQ_OPS)]
     x = c // len(SEQ_OPS)
     if op == "store":
-        return [op, x % 3, (x // 3) % 10, TEXTS[(x // 30) % len(TEXTS)] + ("#%d" % ((x // 300) % 7) if (x // 30) % len(TEXTS) < 9 else "")]
+        return [op, x % 3, (x // 3) % 10, ("#%d" % ((x // 300) % 7) if (x // 30) % len(TEXTS) < len(TEXTS) - 1 else "") + TEXTS[(x // 30) % len(TEXTS)]]
     if op == "read":
         return [op, x % 3, (x // 3) % 13]
     return [op]
